@@ -167,8 +167,8 @@ fn main() {
     // the every-change check does not recompile generated code for every seed);
     // thorough: + corpora derived from the seed
     let mut corpora = vec![
-        Corpus { name: "q0".into(), seed: 0x51, profile: "default".into(), proto: false },
-        Corpus { name: "qd".into(), seed: 0x52, profile: "defaults".into(), proto: false },
+        Corpus { name: "q0".into(), seed: 0x51, profile: "default@ns2".into(), proto: false },
+        Corpus { name: "qd".into(), seed: 0x52, profile: "defaults@ns3".into(), proto: false },
         Corpus { name: "p3".into(), seed: 0x53, profile: "proto3".into(), proto: true },
         Corpus { name: "p2".into(), seed: 0x54, profile: "proto2".into(), proto: true },
     ];
